@@ -301,8 +301,9 @@ impl Objects {
                     || i <= steps.len().saturating_sub(sc.steps.len());
                 let msg = || {
                     format!(
-                        "P|{sname}|{}|{k}{i}",
-                        e["cur"].as_u64().unwrap_or(0)
+                        "P|{sname}|{}|{k}{}{i}",
+                        e["cur"].as_u64().unwrap_or(0),
+                        e["h"].as_str().unwrap_or(""),
                     )
                 };
                 let caps = || Regex::new("x").unwrap().capture_locations();
